@@ -345,3 +345,96 @@ def _replay_corpus(f):
     nh = i.get('extended_nexthop_negotiated', False)
     must = nh and 'is refused once extended next-hop' in f['what']
     return decode_render(i['type'], bytes.fromhex(i['body']), nh=nh, must_decode=must) is None
+
+
+# ---------------------------------------------------------------------------------------------------------------------
+# the helper models of contracts/rte_sweep.py (what the address helpers demand of the bytes) against the helpers
+@bounded('C03', 'helper-models')
+def helper_models(tier, seed):
+    import socket
+    from exabgp.protocol.family import AFI, SAFI
+    from exabgp.protocol.ip import IPv4, IPv6
+    from exabgp.bgp.message.open.routerid import RouterID
+
+    table = [
+        ('socket.inet_ntop(AF_INET, b)', lambda b: socket.inet_ntop(socket.AF_INET, b), lambda n: n != 4),
+        ('socket.inet_ntop(AF_INET6, b)', lambda b: socket.inet_ntop(socket.AF_INET6, b), lambda n: n != 16),
+        ('IPv4.ntop', IPv4.ntop, lambda n: n != 4),
+        ('IPv6.ntop', IPv6.ntop, lambda n: n != 16),
+        ('AFI.unpack_afi', AFI.unpack_afi, lambda n: n < 2),
+        ('SAFI.unpack_safi', SAFI.unpack_safi, lambda n: False),
+        ('RouterID.unpack_routerid', RouterID.unpack_routerid, lambda n: n != 4),
+    ]
+    fails, evals = [], 0
+    for name, fn, refuses in table:
+        for n in range(0, 40):
+            for wrap in (bytes, memoryview):
+                for fill in (0, 0xFF, 0x41):
+                    b = wrap(bytes([fill]) * n)
+                    evals += 1
+                    try:
+                        fn(b)
+                        got = None
+                    except Exception as e:  # noqa
+                        got = type(e).__name__
+                    want = 'ValueError' if refuses(n) else None
+                    if got != want:
+                        fails.append({'what': f'model of {name}: {n} bytes ({wrap.__name__}) -> {got}, the model says {want}', 'input': {'helper': name, 'length': n, 'fill': fill, 'wrap': wrap.__name__}})
+    return {'evaluations': evals, 'distinct_nontrivial': evals, 'exhaustive': True, 'bound': '7 helpers x lengths 0..39 x bytes/memoryview x 3 fill bytes: raises ValueError exactly when the model used at call sites says so, nothing else', 'rule': 'one case = (helper, length, container, fill)', 'samples': [{'helper': 'IPv4.ntop', 'length': 3}], 'failures': fails}
+
+
+@replayer('C03', 'helper-models')
+def _replay_helper(f):
+    import socket
+    from exabgp.protocol.family import AFI, SAFI
+    from exabgp.protocol.ip import IPv4, IPv6
+    from exabgp.bgp.message.open.routerid import RouterID
+
+    i = f['input']
+    fn = {'socket.inet_ntop(AF_INET, b)': lambda b: socket.inet_ntop(socket.AF_INET, b), 'socket.inet_ntop(AF_INET6, b)': lambda b: socket.inet_ntop(socket.AF_INET6, b), 'IPv4.ntop': IPv4.ntop, 'IPv6.ntop': IPv6.ntop, 'AFI.unpack_afi': AFI.unpack_afi, 'SAFI.unpack_safi': SAFI.unpack_safi, 'RouterID.unpack_routerid': RouterID.unpack_routerid}[i['helper']]
+    b = (bytes if i['wrap'] == 'bytes' else memoryview)(bytes([i['fill']]) * i['length'])
+    try:
+        fn(b)
+        got = None
+    except Exception as e:  # noqa
+        got = type(e).__name__
+    return got == f['what'].split('the model says ')[1].replace('None', '') or (got is None and f['what'].endswith('None'))
+
+
+# ---------------------------------------------------------------------------------------------------------------------
+# message types whose body is a type, a length and a payload (OPERATIONAL; ROUTE-REFRESH has a fixed body): every type
+# code the decoder registers and a few it does not, with EVERY payload length 0..40 and a length field that agrees --
+# the inputs a plain truncation never builds, because cutting the body makes the length field lie and the generic check
+# refuses first.
+@bounded('C03', 'typed-payload-lengths')
+def typed_payload_lengths(tier, seed):
+    from exabgp.bgp.message.operational import Operational
+
+    codes = sorted(int(c) for c in Operational.registered_operational) + [0, 0x7FFF, 0xFFFF]
+    fails, evals = [], 0
+    for code in codes:
+        for n in range(0, 41):
+            for fill in (0x00, 0x01, 0xFF):
+                payload = struct.pack('!HB', 1, 1) + bytes([fill]) * 40
+                body = struct.pack('!HH', code, n) + payload[:n]
+                for kind in ('ebgp4',):
+                    evals += 1
+                    f = decode_any(kind, 6, body)
+                    if f:
+                        f['input']['operational_type'] = code
+                        f['input']['payload_length'] = n
+                        fails.append(f)
+    for n in range(0, 12):
+        for sub in (0, 1, 2, 3, 255):
+            body = (struct.pack('!HBB', 1, sub, 1) + bytes(8))[:n]
+            evals += 1
+            f = decode_any('ebgp4', 5, body)
+            if f:
+                fails.append(f)
+    return {'evaluations': evals, 'distinct_nontrivial': evals, 'exhaustive': True, 'bound': f'OPERATIONAL: {len(codes)} type codes (all registered + 3 unknown) x payload lengths 0..40 with an agreeing length field x 3 fill bytes; ROUTE-REFRESH: lengths 0..11 x 5 subtypes', 'rule': 'one case = one message body', 'samples': [{'type': 6, 'operational_type': codes[0], 'payload_length': 11}], 'failures': fails}
+
+
+@replayer('C03', 'typed-payload-lengths')
+def _replay_typed(f):
+    i = f['input']
+    return decode_any(i['kind'], i['type'], bytes.fromhex(i['body'])) is None
